@@ -605,10 +605,17 @@ func (c *Ctx) build(t *Term) interface{} {
 		return p.Interface()
 	case "nilptr":
 		return (*int)(nil)
-	case "tslice", "tmap":
+	case "tslice", "tmap", "tarray":
 		// statically typed: the element type is that of the first child
 		vals := c.Values(t.Xs)
 		et := reflect.TypeOf(vals[0])
+		if t.K == "tarray" {
+			arr := reflect.New(reflect.ArrayOf(len(vals), et)).Elem()
+			for i, v := range vals {
+				arr.Index(i).Set(reflect.ValueOf(v))
+			}
+			return arr.Interface()
+		}
 		if t.K == "tslice" {
 			sl := reflect.MakeSlice(reflect.SliceOf(et), 0, len(vals))
 			for _, v := range vals {
